@@ -27,6 +27,9 @@ from concurrent.futures import ThreadPoolExecutor
 from typing import Any, Callable
 
 ROOT = os.path.dirname(os.path.dirname(os.path.abspath(__file__)))
+# the code under test: /repo/src.  VERIF_SRC is a development aid only (seeded-fault / refactoring studies evaluate a patch in a scratch worktree while a long
+# check run is reading /repo); registered commands never set it.
+SRC_ROOT = os.environ.get("VERIF_SRC", "/repo/src")
 VENV_PY = os.path.join(ROOT, ".venv", "bin", "python")
 CROSSHAIR = os.path.join(ROOT, ".venv", "bin", "crosshair")
 WORK = os.path.join(ROOT, ".work")
@@ -282,7 +285,7 @@ def _crosshair(path, timeout, extra=()):
            *extra, path]
     env = dict(os.environ)
     env.setdefault("PYTHONHASHSEED", "0")
-    env["PYTHONPATH"] = ROOT + os.pathsep + "/repo/src"
+    env["PYTHONPATH"] = ROOT + os.pathsep + SRC_ROOT
     env["PYTHONDONTWRITEBYTECODE"] = "1"
     outp = path + ".out"
     with open(outp, "w") as fo:
@@ -431,7 +434,7 @@ def run_nat(u: Nat, tier, seed):
             "print('@@RESULT@@'+json.dumps(r, default=str))")
     env = dict(os.environ)
     env.setdefault("PYTHONHASHSEED", "0")
-    env["PYTHONPATH"] = ROOT + os.pathsep + "/repo/src"
+    env["PYTHONPATH"] = ROOT + os.pathsep + SRC_ROOT
     env["PYTHONDONTWRITEBYTECODE"] = "1"
     t0 = time.time()
     try:
@@ -472,7 +475,7 @@ def write_replay(pid, func, kw, note=""):
 Runs the harness body natively (no CrossHair) on the concrete input against /repo/src.
 exit 1 + 'REPRODUCED' when the property is violated, exit 0 otherwise."""
 import sys
-sys.path[:0] = [{ROOT!r}, "/repo/src"]
+sys.path[:0] = [{ROOT!r}, {SRC_ROOT!r}]
 from vp.runner import _load
 kw = {kw!r}
 msg = _load({func!r})(**kw)
@@ -489,7 +492,7 @@ sys.exit(1)
 def run_replay(path):
     env = dict(os.environ)
     env.setdefault("PYTHONHASHSEED", "0")
-    env["PYTHONPATH"] = ROOT + os.pathsep + "/repo/src"
+    env["PYTHONPATH"] = ROOT + os.pathsep + SRC_ROOT
     env["PYTHONDONTWRITEBYTECODE"] = "1"
     p = subprocess.run([VENV_PY, path], capture_output=True, text=True, env=env, timeout=600)
     return p.returncode == 1 and "REPRODUCED" in p.stdout, (p.stdout + p.stderr)[-1500:]
